@@ -1,6 +1,6 @@
 (* L3/ArithProofs.v — the arithmetic operations return the exact result
    rounded once (C01, C02). *)
-From Coq Require Import ZArith List Bool Lia QArith Lqa.
+From Coq Require Import ZArith List Bool Lia QArith Qabs Lqa.
 From Dec Require Import Base.Words Base.WordsProofs Base.QPow L3.Decimal L3.Cmp L3.CmpProofs
   L3.Round L3.Arith Spec.Rounding Spec.RoundingFacts L3.RoundProofs.
 Open Scope Z_scope.
@@ -90,13 +90,13 @@ Lemma i32_small e : MinExp <= e <= MaxExp -> i32 e = e.
 Proof. unfold i32, MinExp, MaxExp. intros H. rewrite Z.mod_small by lia. lia. Qed.
 
 (* rounding always exists and is at least 10^(e-1) *)
-Lemma rounds_exists d p N L x (s : bool) v :
-  1 <= p -> 10 ^ (L - 1) <= N < 10 ^ L -> 1 <= L ->
-  (scaled N x <= v)%Q -> (v < scaled (N + 1) x)%Q ->
-  (s = false -> (v == scaled N x)%Q) -> (s = true -> (scaled N x < v)%Q /\ p < L) ->
+Lemma rounds_exists d p N L x (s : bool) v t :
+  1 <= p -> 10 ^ (L - 1) <= N < 10 ^ L -> 1 <= L -> 0 <= t -> N mod 10 ^ t = 0 ->
+  (scaled N x <= v)%Q -> (v < scaled (N + 10 ^ t) x)%Q ->
+  (s = false -> (v == scaled N x)%Q) -> (s = true -> (scaled N x < v)%Q /\ p + t < L) ->
   exists r, RoundsDir d p v r /\ (scaled 1 (x + L - 1) <= r)%Q.
 Proof.
-  intros Hp HN HL Hlo Hhi Hs0 Hs1.
+  intros Hp HN HL Ht HNt Hlo Hhi Hs0 Hs1.
   destruct (Z.le_gt_cases L p) as [C|C].
   - assert (Hs : s = false) by (destruct s; [destruct (Hs1 eq_refl); lia|reflexivity]).
     exists (scaled N x). split.
@@ -106,25 +106,62 @@ Proof.
     + apply (scaled_le_gen _ _ _ _ x); try lia. rewrite Z.sub_diag, Z.pow_0_r.
       replace (x + L - 1 - x) with (L - 1) by lia. lia.
   - set (k := L - p). assert (Hk : 1 <= k) by (unfold k; lia).
-    assert (HNpk : 10 ^ (p + k - 1) <= N < 10 ^ (p + k)) by (replace (p + k) with L by (unfold k; lia); exact HN).
-    assert (Hs1' : s = true -> (scaled N x < v)%Q) by (intros E; apply (Hs1 E)).
-    pose proof (inc_dec_rounds d p N k x s v Hp Hk HNpk Hlo Hhi Hs0 Hs1') as HR.
-    pose proof (M0_bounds p N k Hp Hk HNpk) as HM. cbn zeta in HR.
+    set (te := if s then t else 0).
+    assert (Hte : 0 <= te < k) by (unfold te; destruct s; [destruct (Hs1 eq_refl); unfold k; lia|lia]).
+    set (T := 10 ^ te). assert (HT : 0 < T) by (apply pow10_pos; lia).
+    assert (HNT : N mod T = 0) by (unfold T, te; destruct s; [exact HNt|now rewrite Z.pow_0_r, Z.mod_1_r]).
+    set (N2 := N / T).
+    assert (EN2 : N = N2 * T) by (unfold N2; rewrite (Z.div_mod N T) at 1 by lia; rewrite HNT; ring).
+    set (k2 := k - te). assert (Hk2 : 1 <= k2) by (unfold k2; lia).
+    set (x2 := x + te).
+    assert (Hlo2 : (scaled N2 x2 <= v)%Q).
+    { unfold x2. rewrite <- scaled_pow by lia. fold T. rewrite <- EN2. exact Hlo. }
+    assert (Hhi2 : (v < scaled (N2 + 1) x2)%Q).
+    { unfold x2. rewrite <- scaled_pow by lia. fold T. replace ((N2 + 1) * T) with (N + T) by (rewrite EN2; ring).
+      unfold T, te. destruct s eqn:Es; [exact Hhi|]. rewrite Z.pow_0_r.
+      rewrite (Hs0 eq_refl). apply scaled_lt_same. lia. }
+    assert (Hs02 : s = false -> (v == scaled N2 x2)%Q).
+    { intros E. unfold x2. rewrite <- scaled_pow by lia. fold T. rewrite <- EN2. exact (Hs0 E). }
+    assert (Hs12 : s = true -> (scaled N2 x2 < v)%Q).
+    { intros E. unfold x2. rewrite <- scaled_pow by lia. fold T. rewrite <- EN2. apply (Hs1 E). }
+    assert (HNpk2 : 10 ^ (p + k2 - 1) <= N2 < 10 ^ (p + k2)).
+    { assert (EL : L = p + k2 + te) by (unfold k2, k; lia). rewrite EL in HN.
+      replace (p + k2 + te - 1) with (p + k2 - 1 + te) in HN by lia.
+      rewrite (Z.pow_add_r 10 (p + k2 - 1) te), (Z.pow_add_r 10 (p + k2) te) in HN by lia. fold T in HN.
+      destruct HN as [HNa HNb]. rewrite EN2 in HNa, HNb.
+      split; [apply (Z.mul_le_mono_pos_r _ _ T HT); exact HNa|apply (Z.mul_lt_mono_pos_r T _ _ HT); exact HNb]. }
+    pose proof (inc_dec_rounds d p N2 k2 x2 s v Hp Hk2 HNpk2 Hlo2 Hhi2 Hs02 Hs12) as HR.
+    pose proof (M0_bounds p N2 k2 Hp Hk2 HNpk2) as HM. cbn zeta in HR.
     eexists. split; [exact HR|].
-    apply (scaled_le_gen _ _ _ _ (x + k)); try (unfold k; lia).
-    rewrite Z.sub_diag, Z.pow_0_r. replace (x + L - 1 - (x + k)) with (p - 1) by (unfold k; lia).
-    destruct (inc_dec d (N / 10 ^ k) (N mod 10 ^ k) (10 ^ k) s); lia.
+    apply (scaled_le_gen _ _ _ _ (x2 + k2)); try (unfold x2, k2, k; lia).
+    rewrite Z.sub_diag, Z.pow_0_r. replace (x + L - 1 - (x2 + k2)) with (p - 1) by (unfold x2, k2, k; lia).
+    destruct (inc_dec d (N2 / 10 ^ k2) (N2 mod 10 ^ k2) (10 ^ k2) s); lia.
 Qed.
 
-Theorem setExpAndRound_correct z e (s : bool) v :
-  NormMant (mant z) -> 1 <= prec z <= MaxPrec ->
+Theorem setExpAndRound_correct_gen z e (s : bool) v t :
+  NormMant (mant z) -> 1 <= prec z <= MaxPrec -> 0 <= t ->
   let N := val (mant z) in let x := e - mdigits (mant z) in
-  (scaled N x <= v)%Q -> (v < scaled (N + 1) x)%Q ->
+  N mod 10 ^ t = 0 ->
+  (scaled N x <= v)%Q -> (v < scaled (N + 10 ^ t) x)%Q ->
   (s = false -> (v == scaled N x)%Q) ->
-  (s = true -> (scaled N x < v)%Q /\ prec z < mdigits (mant z)) ->
+  (s = true -> (scaled N x < v)%Q /\ prec z + t < mdigits (mant z)) ->
   exists z', setExpAndRound z e (b2z s) = Some z' /\ RoundPost z v z'.
 Proof.
-  intros [Hne Hok Htop Hlen] Hp N x Hlo Hhi Hs0 Hs1.
+  intros [Hne Hok Htop Hlen] Hp Ht N x HNt Hlo Hhi Hs0 Hs1.
+  assert (Hvup : (v < scaled 1 e)%Q).
+  { pose proof (mant_val_bounds (mant z) Hne Hok Htop) as HN0. fold N in HN0.
+    assert (HLnn : 0 <= mdigits (mant z)) by (unfold mdigits; pose proof (zlen_nonneg (mant z)); cbv [DW]; lia).
+    destruct s eqn:Es.
+    - destruct (Hs1 eq_refl) as [_ Hpt].
+      eapply Qlt_le_trans; [exact Hhi|]. apply (scaled_le_gen _ _ _ _ x); unfold x; try lia.
+      rewrite Z.sub_diag, Z.pow_0_r. replace (e - (e - mdigits (mant z))) with (mdigits (mant z)) by lia.
+      (* N and 10^L are multiples of 10^t *)
+      set (L := mdigits (mant z)) in *. assert (0 < 10 ^ t) by (apply pow10_pos; lia).
+      assert (E : 10 ^ L = 10 ^ (L - t) * 10 ^ t) by (rewrite <- Z.pow_add_r by lia; f_equal; lia).
+      apply Z.mod_divide in HNt; [|lia]. destruct HNt as [q Hq].
+      rewrite E, Hq in *. assert (q < 10 ^ (L - t)) by nia. nia.
+    - rewrite (Hs0 eq_refl). apply (scaled_lt_gen _ _ _ _ x); unfold x; try lia.
+      rewrite Z.sub_diag, Z.pow_0_r. replace (e - (e - mdigits (mant z))) with (mdigits (mant z)) by lia. lia. }
   pose proof (mant_val_bounds (mant z) Hne Hok Htop) as HN. fold N in HN.
   set (L := mdigits (mant z)) in *.
   assert (HL : 19 <= L).
@@ -138,9 +175,6 @@ Proof.
       destruct (Qlt_le_dec v (scaled 1 (MinExp - 1))) as [_|C].
       * cbn [dform acc with_form with_acc]. auto.
       * exfalso.
-        assert (v < scaled 1 e)%Q.
-        { eapply Qlt_le_trans; [exact Hhi|]. apply (scaled_le_gen _ _ _ _ x); unfold x; try lia.
-          rewrite Z.sub_diag, Z.pow_0_r. replace (e - (e - L)) with L by lia. lia. }
         assert (scaled 1 e <= scaled 1 (MinExp - 1))%Q by (apply scaled1_le; lia). lra.
     + apply WF_nonfinite; cbn [dform prec with_form with_acc]; [discriminate|lia].
   - destruct (Z.ltb_spec MaxExp e) as [Ho|Hno].
@@ -153,7 +187,7 @@ Proof.
           rewrite Z.sub_diag, Z.pow_0_r. replace (e - 1 - (e - L)) with (L - 1) by lia. lia. }
         destruct (Qlt_le_dec v (scaled 1 (MinExp - 1))) as [C|_].
         { exfalso. assert (scaled 1 (MinExp - 1) <= scaled 1 (e - 1))%Q by (apply scaled1_le; unfold MinExp, MaxExp in *; lia). lra. }
-        destruct (rounds_exists (dir_of (dmode z) (neg z)) (prec z) N L x s v ltac:(lia) HN ltac:(lia) Hlo Hhi Hs0 Hs1)
+        destruct (rounds_exists (dir_of (dmode z) (neg z)) (prec z) N L x s v t ltac:(lia) HN ltac:(lia) Ht HNt Hlo Hhi Hs0 Hs1)
           as [r [HR Hr]].
         exists r. split; [exact HR|].
         destruct (Qlt_le_dec r (scaled 1 MaxExp)) as [C|_].
@@ -162,12 +196,29 @@ Proof.
         cbn [dform acc with_form with_acc]. auto.
       * apply WF_nonfinite; cbn [dform prec with_form with_acc]; [discriminate|lia].
     + rewrite i32_small by lia.
-      apply (round_correct (with_exp (with_form z Ffinite) e) s v).
+      apply (round_correct_gen (with_exp (with_form z Ffinite) e) s v t).
       * constructor; cbn [dform mant prec exp with_exp with_form]; try assumption; try reflexivity; lia.
+      * exact Ht.
+      * exact HNt.
       * exact Hlo.
       * exact Hhi.
       * exact Hs0.
       * exact Hs1.
+Qed.
+
+Theorem setExpAndRound_correct z e (s : bool) v :
+  NormMant (mant z) -> 1 <= prec z <= MaxPrec ->
+  let N := val (mant z) in let x := e - mdigits (mant z) in
+  (scaled N x <= v)%Q -> (v < scaled (N + 1) x)%Q ->
+  (s = false -> (v == scaled N x)%Q) ->
+  (s = true -> (scaled N x < v)%Q /\ prec z < mdigits (mant z)) ->
+  exists z', setExpAndRound z e (b2z s) = Some z' /\ RoundPost z v z'.
+Proof.
+  intros HN Hp N x Hlo Hhi Hs0 Hs1.
+  apply (setExpAndRound_correct_gen z e s v 0); try assumption.
+  - lia.
+  - apply Z.mod_1_r.
+  - intros E. destruct (Hs1 E). split; [assumption|]. rewrite Z.add_0_r. assumption.
 Qed.
 
 (* ------------------------------------------------------------------ *)
@@ -263,9 +314,13 @@ Ltac simp_with :=
 Lemma RoundPost_OpPost z v z' : RoundPost z v z' -> OpPost (prec z) (dmode z) (neg z) v (OkR z').
 Proof. intros (H1 & H2 & H3 & H4). exists z'. split; [reflexivity|]. split; [exact H1|]. split; [exact H2|]. split; [exact H3|exact H4]. Qed.
 
+Lemma of_opt_post_gen z o v : (exists z', o = Some z' /\ RoundPost z v z') ->
+  OpPost (prec z) (dmode z) (neg z) v (of_opt o).
+Proof. intros (z' & E & H). rewrite E. cbn [of_opt]. now apply RoundPost_OpPost. Qed.
+
 Lemma of_opt_post z sb v : (exists z', round z sb = Some z' /\ RoundPost z v z') ->
   OpPost (prec z) (dmode z) (neg z) v (of_opt (round z sb)).
-Proof. intros (z' & E & H). rewrite E. cbn [of_opt]. now apply RoundPost_OpPost. Qed.
+Proof. apply of_opt_post_gen. Qed.
 
 Theorem Set_correct same z x :
   WF x -> dform x = Ffinite -> mdigits (mant x) < 4294967296 - 18 ->
@@ -357,4 +412,649 @@ Proof.
     split; [|split; [reflexivity|split; [reflexivity|]]].
     + apply exact_result_spec; cbn [dform acc neg]; try assumption; try reflexivity; lia.
     + apply WF_reprec; [assumption|lia].
+Qed.
+
+(* ------------------------------------------------------------------ *)
+(* Mul *)
+
+Lemma scaled_mul a e1 b e2 : (scaled a e1 * scaled b e2 == scaled (a * b) (e1 + e2))%Q.
+Proof. unfold scaled. rewrite inject_Z_mult, Qpow10_add. ring. Qed.
+
+Lemma Bpow_lt_inv a b : 0 <= a -> 0 <= b -> B ^ a < B ^ b -> a < b.
+Proof.
+  intros Ha Hb H. destruct (Z.lt_ge_cases a b); [assumption|]. exfalso.
+  assert (B ^ b <= B ^ a) by (apply Z.pow_le_mono_r; [apply B_pos|lia]). lia.
+Qed.
+
+Lemma zlen_of_Z n k : 1 <= k -> B ^ (k - 1) <= n < B ^ k -> zlen (of_Z n) = k.
+Proof.
+  intros Hk [Hlo Hhi].
+  assert (Hn : 0 < n) by (assert (0 < B ^ (k - 1)) by (apply Z.pow_pos_nonneg; [apply B_pos|lia]); lia).
+  pose proof (words_ok_of_Z n) as Hok. pose proof (val_of_Z n ltac:(lia)) as Hv.
+  pose proof (of_Z_last_nz n Hn) as Hl.
+  assert (Hne : of_Z n <> []) by (intros E; apply of_Z_nil_iff in E; lia).
+  pose proof (val_bounds (of_Z n) Hok) as [_ Hb].
+  pose proof (val_ge_last (of_Z n) Hok Hne) as [Hg _].
+  pose proof (last_in_words_ok (of_Z n) Hok Hne) as Hw.
+  set (len := zlen (of_Z n)) in *.
+  assert (Hlen : 1 <= len) by (unfold len; destruct (of_Z n); [congruence|rewrite zlen_cons; pose proof (zlen_nonneg l); lia]).
+  rewrite Hv in *.
+  assert (HP : 0 < B ^ (len - 1)) by (apply Z.pow_pos_nonneg; [apply B_pos|lia]).
+  assert (B ^ (len - 1) <= n) by nia.
+  assert (len - 1 < k) by (apply Bpow_lt_inv; lia).
+  assert (k - 1 < len) by (apply Bpow_lt_inv; lia).
+  lia.
+Qed.
+
+Lemma of_Z_pos_facts n : 0 < n ->
+  words_ok (of_Z n) = true /\ of_Z n <> [] /\ last (of_Z n) 0 <> 0 /\ val (of_Z n) = n.
+Proof.
+  intros Hn. split; [apply words_ok_of_Z|]. split; [intros E; apply of_Z_nil_iff in E; lia|].
+  split; [now apply of_Z_last_nz|apply val_of_Z; lia].
+Qed.
+
+Lemma WFfin_len x : WFfin x -> 1 <= zlen (mant x) /\ mdigits (mant x) = 19 * zlen (mant x).
+Proof.
+  intros [Hne _ _ _ _ _]. split; [|reflexivity].
+  destruct (mant x); [congruence|rewrite zlen_cons; pose proof (zlen_nonneg l); lia].
+Qed.
+
+Lemma umax32_spec a b : umax32 a b = Z.max a b.
+Proof. unfold umax32. destruct (Z.ltb_spec b a); lia. Qed.
+
+(* the effective precision of a binary operation *)
+Definition eff_prec (z x y : Dec) : Z := if prec z =? 0 then umax32 (prec x) (prec y) else prec z.
+
+Theorem Mul_correct z x y :
+  WF x -> WF y -> dform x = Ffinite -> dform y = Ffinite -> 0 <= prec z <= MaxPrec ->
+  mdigits (mant x) + mdigits (mant y) < 4294967296 - 18 ->
+  OpPost (eff_prec z x y) (dmode z) (xorb (neg x) (neg y)) (mag x * mag y) (Mul z x y).
+Proof.
+  intros Wx Wy Fx Fy Pz Hlen.
+  pose proof (WF_finite x Wx Fx) as Hx. pose proof (WF_finite y Wy Fy) as Hy.
+  pose proof (WFfin_val_bounds x Hx) as HNx. pose proof (WFfin_val_bounds y Hy) as HNy.
+  destruct (WFfin_len x Hx) as [Hlx HLx]. destruct (WFfin_len y Hy) as [Hly HLy].
+  pose proof Hx as [_ _ _ Hpx _ _]. pose proof Hy as [_ _ _ Hpy _ _].
+  unfold Mul. rewrite Fx, Fy.
+  set (z1 := with_neg (if prec z =? 0 then with_prec z (umax32 (prec x) (prec y)) else z) (xorb (neg x) (neg y))).
+  assert (Hp1 : prec z1 = eff_prec z x y) by (unfold z1, eff_prec; destruct (prec z =? 0); reflexivity).
+  assert (Hm1 : dmode z1 = dmode z) by (unfold z1; destruct (prec z =? 0); reflexivity).
+  assert (Hn1 : neg z1 = xorb (neg x) (neg y)) by reflexivity.
+  assert (Hpe : 1 <= eff_prec z x y <= MaxPrec).
+  { unfold eff_prec. rewrite umax32_spec. destruct (Z.eqb_spec (prec z) 0); lia. }
+  unfold umul.
+  set (Nx := val (mant x)) in *. set (Ny := val (mant y)) in *.
+  set (Lx := mdigits (mant x)) in *. set (Ly := mdigits (mant y)) in *.
+  assert (HNx0 : 0 < Nx) by (assert (0 < 10 ^ (Lx - 1)) by (apply pow10_pos; lia); lia).
+  assert (HNy0 : 0 < Ny) by (assert (0 < 10 ^ (Ly - 1)) by (apply pow10_pos; lia); lia).
+  unfold dec_mul. fold Nx Ny.
+  destruct (of_Z_pos_facts (Nx * Ny) ltac:(nia)) as (Hok & Hne & Hlast & Hval).
+  (* the product has exactly lx + ly words *)
+  assert (Hzl : zlen (of_Z (Nx * Ny)) = zlen (mant x) + zlen (mant y)).
+  { apply zlen_of_Z; [lia|].
+    rewrite <- !pow10_19 by lia.
+    assert (0 < 10 ^ (Lx - 1)) by (apply pow10_pos; lia). assert (0 < 10 ^ (Ly - 1)) by (apply pow10_pos; lia).
+    split.
+    - apply Z.le_trans with (10 ^ (Lx - 1) * 10 ^ (Ly - 1)); [|nia].
+      rewrite <- Z.pow_add_r by lia. apply Z.pow_le_mono_r; lia.
+    - replace (19 * (zlen (mant x) + zlen (mant y))) with (Lx + Ly) by lia.
+      rewrite Z.pow_add_r by lia. nia. }
+  destruct (dnorm_spec _ Hok Hne Hlast) as (m' & sh & Ed & Hsh & Vm' & Lm' & Okm' & Nem' & Topm').
+  rewrite Ed.
+  set (z2 := with_mant z1 m').
+  change (prec z1) with (prec z2) in Hp1. change (dmode z1) with (dmode z2) in Hm1. change (neg z1) with (neg z2) in Hn1.
+  rewrite <- Hp1, <- Hm1, <- Hn1.
+  assert (Hmd : mdigits m' = Lx + Ly) by (unfold mdigits; rewrite Lm', Hzl; cbv [DW]; lia).
+  apply of_opt_post_gen.
+  apply (setExpAndRound_correct z2 (exp x + exp y - sh) false (mag x * mag y)).
+  - change (mant z2) with m'. constructor; try assumption. rewrite Hmd. exact Hlen.
+  - rewrite Hp1. exact Hpe.
+  - change (mant z2) with m'. rewrite Vm', Hval, Hmd. apply Qle_lteq. right.
+    unfold mag. fold Nx Ny Lx Ly. rewrite scaled_mul. rewrite scaled_pow by lia.
+    apply (scaled_eq_gen _ _ _ _ (exp x - Lx + (exp y - Ly))); try lia. f_equal. f_equal. lia.
+  - change (mant z2) with m'. rewrite Vm', Hval, Hmd.
+    unfold mag. fold Nx Ny Lx Ly. rewrite scaled_mul.
+    apply (scaled_lt_gen _ _ _ _ (exp x + exp y - sh - (Lx + Ly))); try lia.
+    rewrite Z.sub_diag, Z.pow_0_r. replace (exp x - Lx + (exp y - Ly) - (exp x + exp y - sh - (Lx + Ly))) with sh by lia. lia.
+  - intros _. change (mant z2) with m'. rewrite Vm', Hval, Hmd.
+    unfold mag. fold Nx Ny Lx Ly. rewrite scaled_mul. rewrite scaled_pow by lia.
+    apply (scaled_eq_gen _ _ _ _ (exp x - Lx + (exp y - Ly))); try lia. f_equal. f_equal. lia.
+  - discriminate.
+Qed.
+
+(* ------------------------------------------------------------------ *)
+(* Quo *)
+
+Lemma val_repeat0_app d m : val (repeat 0 d ++ m) = val m * B ^ Z.of_nat d.
+Proof.
+  rewrite val_app, val_repeat0. unfold zlen. rewrite repeat_length. ring.
+Qed.
+
+Lemma zlen_repeat0_app d (m : list Z) : zlen (repeat 0 d ++ m) = Z.of_nat d + zlen m.
+Proof. rewrite zlen_app. unfold zlen. now rewrite repeat_length. Qed.
+
+Lemma of_Z_nil_iff' n : 0 <= n -> (of_Z n = [] <-> n = 0).
+Proof. apply of_Z_nil_iff. Qed.
+
+Lemma digits_sandwich Qq sh lq d2 : 0 <= sh -> 1 <= d2 -> 1 <= lq ->
+  10 ^ (19 * d2 - 1) <= Qq < 10 ^ (19 * d2 + 1) ->
+  10 ^ (19 * lq - 1) <= Qq * 10 ^ sh < 10 ^ (19 * lq) ->
+  19 * d2 + sh <= 19 * lq <= 19 * d2 + sh + 1.
+Proof.
+  intros Hsh Hd2 Hlq [Q1 Q2] [L1 L2].
+  assert (H10 : 0 < 10 ^ sh) by (apply pow10_pos; lia).
+  assert (A1 : 10 ^ (19 * d2 - 1 + sh) < 10 ^ (19 * lq)).
+  { rewrite Z.pow_add_r by lia. apply Z.le_lt_trans with (Qq * 10 ^ sh); [|exact L2].
+    apply Z.mul_le_mono_nonneg_r; lia. }
+  assert (A2 : 10 ^ (19 * lq - 1) < 10 ^ (19 * d2 + 1 + sh)).
+  { rewrite (Z.pow_add_r 10 (19 * d2 + 1) sh) by lia. apply Z.le_lt_trans with (Qq * 10 ^ sh); [exact L1|].
+    apply Z.mul_lt_mono_pos_r; lia. }
+  apply Z.pow_lt_mono_r_iff in A1; [|lia|lia]. apply Z.pow_lt_mono_r_iff in A2; [|lia|lia]. lia.
+Qed.
+
+Lemma quo_bracket (mx my : Q) Nx Ny ex ey X dd Qq R u :
+  (mx == scaled Nx ex)%Q -> (my == scaled Ny ey)%Q -> 0 < Ny -> 0 <= dd ->
+  X = Nx * 10 ^ (19 * dd) -> X = Ny * Qq + R -> 0 <= R < Ny -> u = ex - 19 * dd - ey ->
+  (scaled Qq u <= mx / my)%Q /\ (mx / my < scaled (Qq + 1) u)%Q /\
+  (R = 0 -> (mx / my == scaled Qq u)%Q) /\ (R <> 0 -> (scaled Qq u < mx / my)%Q).
+Proof.
+  intros Hmx Hmy HNy Hdd HX Hdiv HR Hu.
+  assert (Hmypos : (0 < my)%Q) by (rewrite Hmy; apply scaled_pos; lia).
+  assert (Hunit : forall a, (scaled a u * my == scaled (a * Ny) (ex - 19 * dd))%Q).
+  { intros a. rewrite Hmy, scaled_mul. replace (u + ey) with (ex - 19 * dd) by lia. reflexivity. }
+  assert (HmxX : (mx == scaled X (ex - 19 * dd))%Q).
+  { rewrite Hmx, HX. rewrite scaled_pow by lia. replace (ex - 19 * dd + 19 * dd) with ex by lia. reflexivity. }
+  split; [|split; [|split]].
+  - apply Qle_shift_div_l; [exact Hmypos|]. rewrite Hunit, HmxX. apply scaled_le_same. nia.
+  - apply Qlt_shift_div_r; [exact Hmypos|]. rewrite Hunit, HmxX. apply scaled_lt_same. nia.
+  - intros E. apply Qle_antisym.
+    + apply Qle_shift_div_r; [exact Hmypos|]. rewrite Hunit, HmxX. apply scaled_le_same. nia.
+    + apply Qle_shift_div_l; [exact Hmypos|]. rewrite Hunit, HmxX. apply scaled_le_same. nia.
+  - intros E. apply Qlt_shift_div_l; [exact Hmypos|]. rewrite Hunit, HmxX. apply scaled_lt_same. nia.
+Qed.
+
+Theorem Quo_correct z x y :
+  WF x -> WF y -> dform x = Ffinite -> dform y = Ffinite -> 0 <= prec z <= MaxPrec ->
+  mdigits (mant x) + mdigits (mant y) + eff_prec z x y + 38 < 4294967296 - 18 ->
+  OpPost (eff_prec z x y) (dmode z) (xorb (neg x) (neg y)) (mag x / mag y) (Quo z x y).
+Proof.
+  intros Wx Wy Fx Fy Pz Hlen.
+  pose proof (WF_finite x Wx Fx) as Hx. pose proof (WF_finite y Wy Fy) as Hy.
+  pose proof (WFfin_val_bounds x Hx) as HNx. pose proof (WFfin_val_bounds y Hy) as HNy.
+  destruct (WFfin_len x Hx) as [Hlx HLx]. destruct (WFfin_len y Hy) as [Hly HLy].
+  pose proof Hx as [_ _ _ Hpx _ _]. pose proof Hy as [_ _ _ Hpy _ _].
+  pose proof (mag_pos y Hy) as Hmy.
+  unfold Quo. rewrite Fx, Fy.
+  set (z1 := with_neg (if prec z =? 0 then with_prec z (umax32 (prec x) (prec y)) else z) (xorb (neg x) (neg y))).
+  assert (Hp1 : prec z1 = eff_prec z x y) by (unfold z1, eff_prec; destruct (prec z =? 0); reflexivity).
+  assert (Hm1 : dmode z1 = dmode z) by (unfold z1; destruct (prec z =? 0); reflexivity).
+  assert (Hn1 : neg z1 = xorb (neg x) (neg y)) by reflexivity.
+  assert (Hpe : 1 <= eff_prec z x y <= MaxPrec).
+  { unfold eff_prec. rewrite umax32_spec. destruct (Z.eqb_spec (prec z) 0); lia. }
+  set (p := eff_prec z x y) in *.
+  unfold uquo. rewrite Hp1.
+  set (Nx := val (mant x)) in *. set (Ny := val (mant y)) in *.
+  set (Lx := mdigits (mant x)) in *. set (Ly := mdigits (mant y)) in *.
+  set (lx := zlen (mant x)) in *. set (ly := zlen (mant y)) in *.
+  assert (HNx0 : 0 < Nx) by (assert (0 < 10 ^ (Lx - 1)) by (apply pow10_pos; lia); lia).
+  assert (HNy0 : 0 < Ny) by (assert (0 < 10 ^ (Ly - 1)) by (apply pow10_pos; lia); lia).
+  change DW with 19.
+  set (n := p / 19 + 1).
+  assert (Hn : 1 <= n /\ p < 19 * n <= p + 19) by (unfold n; Z.div_mod_to_equations; lia).
+  set (d := n - lx + ly).
+  set (dd := Z.max d 0).
+  set (xadj := if 0 <? d then repeat 0 (Z.to_nat d) ++ mant x else mant x).
+  assert (Hxadj : val xadj = Nx * B ^ dd /\ zlen xadj = lx + dd).
+  { unfold xadj, dd. destruct (Z.ltb_spec 0 d).
+    - rewrite val_repeat0_app, zlen_repeat0_app. rewrite Z2Nat.id by lia. rewrite Z.max_l by lia. fold Nx lx. lia.
+    - rewrite Z.max_r by lia. rewrite Z.pow_0_r. fold Nx lx. lia. }
+  destruct Hxadj as [VX LX]. rewrite LX.
+  set (X := val xadj) in *.
+  set (d2 := lx + dd - ly).
+  assert (Hd2 : n <= d2) by (unfold d2, dd, d; lia).
+  assert (Hdd : 0 <= dd) by (unfold dd; lia).
+  destruct (Z.eqb_spec Ny 0) as [C|_]; [lia|].
+  unfold dec_quo, dec_rem. fold X Ny.
+  set (Qq := X / Ny). set (R := X mod Ny).
+  assert (HXpos : 0 < X) by (rewrite VX; assert (0 < B ^ dd) by (apply Z.pow_pos_nonneg; [apply B_pos|lia]); nia).
+  assert (Hdiv : X = Ny * Qq + R /\ 0 <= R < Ny).
+  { unfold Qq, R. split; [apply Z.div_mod; lia|apply Z.mod_pos_bound; lia]. }
+  destruct Hdiv as [EX HR].
+  (* size of the quotient: 10^(19 d2 - 1) <= Q < 10^(19 d2 + 1) *)
+  assert (HXb : 10 ^ (Lx + 19 * dd - 1) <= X < 10 ^ (Lx + 19 * dd)).
+  { rewrite VX. rewrite <- pow10_19 by lia.
+    replace (Lx + 19 * dd - 1) with (Lx - 1 + 19 * dd) by lia. rewrite !Z.pow_add_r by lia.
+    assert (0 < 10 ^ (19 * dd)) by (apply pow10_pos; lia). nia. }
+  assert (E19 : Lx + 19 * dd = 19 * d2 + Ly) by (unfold d2; lia).
+  assert (HQlo : 10 ^ (19 * d2 - 1) <= Qq).
+  { unfold Qq. apply Z.div_le_lower_bound; [lia|].
+    apply Z.le_trans with (10 ^ Ly * 10 ^ (19 * d2 - 1)); [assert (0 < 10 ^ (19 * d2 - 1)) by (apply pow10_pos; lia); nia|].
+    rewrite <- Z.pow_add_r by lia. replace (Ly + (19 * d2 - 1)) with (Lx + 19 * dd - 1) by lia. lia. }
+  assert (HQhi : Qq < 10 ^ (19 * d2 + 1)).
+  { unfold Qq. apply Z.div_lt_upper_bound; [lia|].
+    apply Z.lt_le_trans with (10 ^ (Lx + 19 * dd)); [lia|].
+    rewrite E19. replace (19 * d2 + Ly) with (Ly - 1 + (19 * d2 + 1)) by lia.
+    rewrite Z.pow_add_r by lia. assert (0 < 10 ^ (19 * d2 + 1)) by (apply pow10_pos; lia). nia. }
+  assert (HQ0 : 0 < Qq) by (assert (0 < 10 ^ (19 * d2 - 1)) by (apply pow10_pos; lia); lia).
+  destruct (of_Z_pos_facts Qq HQ0) as (Hok & Hne & Hlast & Hval).
+  destruct (dnorm_spec _ Hok Hne Hlast) as (q' & sh & Ed & Hsh & Vq' & Lq' & Okq' & Neq' & Topq').
+  rewrite Ed.
+  set (lq := zlen (of_Z Qq)) in *.
+  (* digits of the quotient: 19 lq - sh >= 19 d2 *)
+  pose proof (mant_val_bounds q' Neq' Okq' Topq') as Hq'b. rewrite Vq' in Hq'b.
+  assert (Hmdq : mdigits q' = 19 * lq) by (unfold mdigits; rewrite Lq'; reflexivity).
+  rewrite Hmdq in Hq'b.
+  assert (Hlq1 : 1 <= lq) by (unfold lq; destruct (of_Z Qq); [congruence|rewrite zlen_cons; pose proof (zlen_nonneg l); lia]).
+  assert (H10sh : 0 < 10 ^ sh) by (apply pow10_pos; lia).
+  assert (Hdig : 19 * d2 + sh <= 19 * lq <= 19 * d2 + sh + 1).
+  { rewrite Hval in Hq'b. apply (digits_sandwich Qq sh lq d2); [clear - Hsh; lia|clear - Hd2 Hn; lia|exact Hlq1|split; assumption|exact Hq'b]. }
+  assert (B2 : p + sh < 19 * lq) by (clear - Hdig Hn Hd2; lia).
+  assert (B1 : 19 * lq < 4294967296 - 18).
+  { assert (19 * d2 <= Lx + p + 19) by (clear - Hn HLx HLy Hlx Hly; unfold d2, dd, d; lia).
+    clear - H Hdig Hsh Hlen HLy Hly. lia. }
+  set (z2 := with_mant z1 q').
+  change (prec z1) with (prec z2) in Hp1. change (dmode z1) with (dmode z2) in Hm1. change (neg z1) with (neg z2) in Hn1.
+  assert (Hgoal : forall r, OpPost (prec z2) (dmode z2) (neg z2) (mag x / mag y) r ->
+                            OpPost p (dmode z) (xorb (neg x) (neg y)) (mag x / mag y) r).
+  { intros r. rewrite Hp1, Hm1, Hn1. auto. }
+  apply Hgoal. clear Hgoal.
+  (* sticky bit *)
+  set (s := negb (R =? 0)).
+  assert (Hsb : (match of_Z R with [] => 0 | _ :: _ => 1 end) = b2z s).
+  { unfold s. destruct (Z.eqb_spec R 0) as [E|E].
+    - rewrite E. reflexivity.
+    - destruct (of_Z R) eqn:Eo; [apply of_Z_nil_iff in Eo; lia|reflexivity]. }
+  rewrite Hsb.
+  set (u := exp x - exp y - 19 * d2).
+  assert (Ee : exp x - exp y - (d2 - lq) * 19 - sh - mdigits q' = u - sh) by (rewrite Hmdq; unfold u; clear; lia).
+  (* the exact quotient in units of 10^u *)
+  assert (HX19 : X = Nx * 10 ^ (19 * dd)) by (rewrite VX, <- pow10_19 by lia; reflexivity).
+  assert (Hu : u = (exp x - Lx) - 19 * dd - (exp y - Ly)) by (unfold u; clear - E19; lia).
+  destruct (quo_bracket (mag x) (mag y) Nx Ny (exp x - Lx) (exp y - Ly) X dd Qq R u
+              ltac:(reflexivity) ltac:(reflexivity) HNy0 Hdd HX19 EX HR Hu) as (Hlo & Hhi & Heq0 & Hne0).
+  clear HNx HNy HXb HQlo HQhi HX19 Hu EX E19 VX LX.
+  assert (HsQ : forall a, (scaled (a * 10 ^ sh) (u - sh) == scaled a u)%Q).
+  { intros a. rewrite scaled_pow by (clear - Hsh; lia). replace (u - sh + sh) with u by (clear; lia). reflexivity. }
+  apply of_opt_post_gen.
+  apply (setExpAndRound_correct_gen z2 (exp x - exp y - (d2 - lq) * 19 - sh) s (mag x / mag y) sh).
+  - change (mant z2) with q'. constructor; try assumption. rewrite Hmdq. exact B1.
+  - rewrite Hp1. exact Hpe.
+  - clear - Hsh. lia.
+  - change (mant z2) with q'. rewrite Vq', Hval. apply Z.mod_mul. clear - H10sh. lia.
+  - change (mant z2) with q'. rewrite Ee, Vq', Hval, HsQ. exact Hlo.
+  - change (mant z2) with q'. rewrite Ee, Vq', Hval.
+    replace (Qq * 10 ^ sh + 10 ^ sh) with ((Qq + 1) * 10 ^ sh) by ring. rewrite HsQ. exact Hhi.
+  - intros Es. change (mant z2) with q'. rewrite Ee, Vq', Hval, HsQ.
+    unfold s in Es. apply negb_false_iff in Es. apply Z.eqb_eq in Es. exact (Heq0 Es).
+  - intros Es. change (mant z2) with q'. rewrite Ee, Vq', Hval, HsQ. split.
+    + unfold s in Es. apply negb_true_iff in Es. apply Z.eqb_neq in Es. exact (Hne0 Es).
+    + rewrite Hp1, Hmdq. exact B2.
+Qed.
+
+(* ------------------------------------------------------------------ *)
+(* Add, Sub *)
+
+(* alignment of two finite values to the smaller unit exponent *)
+Section Align.
+  Variables x y : Dec.
+  Hypothesis Hx : WFfin x.
+  Hypothesis Hy : WFfin y.
+  Let Nx := val (mant x). Let Ny := val (mant y).
+  Let ex := exp x - mdigits (mant x). Let ey := exp y - mdigits (mant y).
+  Let b := Z.min ex ey.
+  Definition alX := Nx * 10 ^ (ex - b).
+  Definition alY := Ny * 10 ^ (ey - b).
+
+  Lemma mag_alX : (mag x == scaled alX b)%Q.
+  Proof. unfold mag, alX. fold Nx ex. rewrite scaled_pow by (unfold b; lia). replace (b + (ex - b)) with ex by lia. reflexivity. Qed.
+  Lemma mag_alY : (mag y == scaled alY b)%Q.
+  Proof. unfold mag, alY. fold Ny ey. rewrite scaled_pow by (unfold b; lia). replace (b + (ey - b)) with ey by lia. reflexivity. Qed.
+  Lemma alX_pos : 0 < alX.
+  Proof.
+    pose proof (WFfin_val_bounds x Hx) as [H _]. destruct (WFfin_len x Hx) as [Hl HL].
+    assert (0 < 10 ^ (mdigits (mant x) - 1)) by (apply pow10_pos; lia).
+    assert (0 < 10 ^ (ex - b)) by (apply pow10_pos; unfold b; lia). unfold alX. fold Nx in H. nia.
+  Qed.
+  Lemma alY_pos : 0 < alY.
+  Proof.
+    pose proof (WFfin_val_bounds y Hy) as [H _]. destruct (WFfin_len y Hy) as [Hl HL].
+    assert (0 < 10 ^ (mdigits (mant y) - 1)) by (apply pow10_pos; lia).
+    assert (0 < 10 ^ (ey - b)) by (apply pow10_pos; unfold b; lia). unfold alY. fold Ny in H. nia.
+  Qed.
+  (* both are below 10^(span), span = digits needed for the aligned operands *)
+  Definition span := Z.max (mdigits (mant x) + (ex - b)) (mdigits (mant y) + (ey - b)).
+  Lemma al_bounds : alX < 10 ^ span /\ alY < 10 ^ span.
+  Proof.
+    pose proof (WFfin_val_bounds x Hx) as [_ H1]. pose proof (WFfin_val_bounds y Hy) as [_ H2].
+    destruct (WFfin_len x Hx) as [Hl HL]. destruct (WFfin_len y Hy) as [Hl' HL'].
+    fold Nx in H1. fold Ny in H2. unfold alX, alY, span.
+    assert (0 < 10 ^ (ex - b)) by (apply pow10_pos; unfold b; lia).
+    assert (0 < 10 ^ (ey - b)) by (apply pow10_pos; unfold b; lia).
+    split.
+    - apply Z.lt_le_trans with (10 ^ (mdigits (mant x) + (ex - b))).
+      + rewrite Z.pow_add_r by (unfold b; lia). nia.
+      + apply Z.pow_le_mono_r; lia.
+    - apply Z.lt_le_trans with (10 ^ (mdigits (mant y) + (ey - b))).
+      + rewrite Z.pow_add_r by (unfold b; lia). nia.
+      + apply Z.pow_le_mono_r; lia.
+  Qed.
+End Align.
+
+(* size of the canonical word list of a number below 10^D *)
+Lemma zlen_of_Z_bound n D : 0 < n < 10 ^ D -> 0 <= D -> 19 * zlen (of_Z n) < D + 19.
+Proof.
+  intros [Hn Hlt] HD.
+  destruct (of_Z_pos_facts n Hn) as (Hok & Hne & Hlast & Hval).
+  pose proof (val_ge_last (of_Z n) Hok Hne) as [Hg _].
+  pose proof (last_in_words_ok (of_Z n) Hok Hne) as Hw.
+  set (len := zlen (of_Z n)) in *.
+  assert (Hlen : 1 <= len) by (unfold len; destruct (of_Z n); [congruence|rewrite zlen_cons; pose proof (zlen_nonneg l); lia]).
+  rewrite Hval in Hg.
+  assert (HP : 0 < B ^ (len - 1)) by (apply Z.pow_pos_nonneg; [apply B_pos|lia]).
+  assert (B ^ (len - 1) < 10 ^ D) by nia.
+  rewrite <- pow10_19 in H by lia. apply Z.pow_lt_mono_r_iff in H; lia.
+Qed.
+
+(* common tail of uadd/usub: normalise S > 0 at unit exponent b and round *)
+Lemma norm_round z S b v D :
+  0 < S < 10 ^ D -> 0 <= D -> D + 19 < 4294967296 - 18 -> 1 <= prec z <= MaxPrec ->
+  (v == scaled S b)%Q ->
+  exists z',
+    match dnorm (of_Z S) with
+    | None => None
+    | Some (m', s) => setExpAndRound (with_mant z m') (b + zlen m' * DW - s) 0
+    end = Some z' /\ RoundPost z v z'.
+Proof.
+  intros HS HD HDl Hp Hv.
+  destruct (of_Z_pos_facts S ltac:(lia)) as (Hok & Hne & Hlast & Hval).
+  destruct (dnorm_spec _ Hok Hne Hlast) as (m' & sh & Ed & Hsh & Vm' & Lm' & Okm' & Nem' & Topm').
+  rewrite Ed.
+  pose proof (zlen_of_Z_bound S D HS HD) as Hzl.
+  assert (Hmd : mdigits m' = 19 * zlen (of_Z S)) by (unfold mdigits; rewrite Lm'; reflexivity).
+  set (z2 := with_mant z m').
+  assert (Hz2 : RoundPost z2 v = RoundPost z v) by reflexivity. rewrite <- Hz2.
+  assert (H10 : 0 < 10 ^ sh) by (apply pow10_pos; lia).
+  assert (Ee : b + zlen m' * DW - sh - mdigits m' = b - sh) by (rewrite Hmd, Lm'; cbv [DW]; lia).
+  assert (HsQ : forall a, (scaled (a * 10 ^ sh) (b - sh) == scaled a b)%Q).
+  { intros a. rewrite scaled_pow by lia. replace (b - sh + sh) with b by lia. reflexivity. }
+  apply (setExpAndRound_correct z2 (b + zlen m' * DW - sh) false v).
+  - change (mant z2) with m'. constructor; try assumption. rewrite Hmd. lia.
+  - exact Hp.
+  - change (mant z2) with m'. rewrite Ee, Vm', Hval, HsQ, Hv. apply Qle_refl.
+  - change (mant z2) with m'. rewrite Ee, Vm', Hval, Hv.
+    rewrite <- (HsQ S). apply scaled_lt_same. lia.
+  - intros _. change (mant z2) with m'. rewrite Ee, Vm', Hval, HsQ. exact Hv.
+  - discriminate.
+Qed.
+
+(* the aligned mantissas as the model computes them *)
+Lemma align_cases x y : WFfin x -> WFfin y ->
+  let ex := exp x - zlen (mant x) * DW in let ey := exp y - zlen (mant y) * DW in
+  (if ex <? ey then (val (mant x), val (dec_shl (mant y) (ey - ex)), ex)
+   else if ey <? ex then (val (dec_shl (mant x) (ex - ey)), val (mant y), ey)
+   else (val (mant x), val (mant y), ex)) =
+  (alX x y, alY x y, Z.min (exp x - mdigits (mant x)) (exp y - mdigits (mant y))).
+Proof.
+  intros Hx Hy ex ey.
+  pose proof (WFfin_val_bounds x Hx) as [Hx1 _]. pose proof (WFfin_val_bounds y Hy) as [Hy1 _].
+  destruct (WFfin_len x Hx) as [Hlx HLx]. destruct (WFfin_len y Hy) as [Hly HLy].
+  assert (Ex : ex = exp x - mdigits (mant x)) by (unfold ex, mdigits; cbv [DW]; lia).
+  assert (Ey : ey = exp y - mdigits (mant y)) by (unfold ey, mdigits; cbv [DW]; lia).
+  assert (0 < 10 ^ (mdigits (mant x) - 1)) by (apply pow10_pos; lia).
+  assert (0 < 10 ^ (mdigits (mant y) - 1)) by (apply pow10_pos; lia).
+  unfold alX, alY, dec_shl. rewrite <- Ex, <- Ey.
+  destruct (Z.ltb_spec ex ey).
+  - rewrite Z.min_l by lia. rewrite Z.sub_diag, Z.pow_0_r, Z.mul_1_r.
+    rewrite val_of_Z by (assert (0 < 10 ^ (ey - ex)) by (apply pow10_pos; lia); nia). reflexivity.
+  - destruct (Z.ltb_spec ey ex).
+    + rewrite Z.min_r by lia. rewrite Z.sub_diag, Z.pow_0_r, Z.mul_1_r.
+      rewrite val_of_Z by (assert (0 < 10 ^ (ex - ey)) by (apply pow10_pos; lia); nia). reflexivity.
+    + assert (ex = ey) by lia. rewrite Z.min_l by lia. rewrite H3, !Z.sub_diag, Z.pow_0_r, !Z.mul_1_r. reflexivity.
+Qed.
+
+(* the digit span of the aligned operands, in terms of the inputs *)
+Definition add_span (x y : Dec) : Z :=
+  Z.max (mdigits (mant x)) (mdigits (mant y)) +
+  Z.abs ((exp x - mdigits (mant x)) - (exp y - mdigits (mant y))).
+
+Lemma span_le x y : span x y <= add_span x y.
+Proof. unfold span, add_span. lia. Qed.
+
+Lemma uadd_correct z x y : WFfin x -> WFfin y -> 1 <= prec z <= MaxPrec ->
+  add_span x y + 40 < 4294967296 - 18 ->
+  exists z', uadd z x y = Some z' /\ RoundPost z (mag x + mag y) z'.
+Proof.
+  intros Hx Hy Hp Hsp. unfold uadd.
+  pose proof (align_cases x y Hx Hy) as HA. cbn zeta in HA.
+  pose proof (alX_pos x y Hx) as PX. pose proof (alY_pos x y Hy) as PY.
+  pose proof (al_bounds x y Hx Hy) as [BX BY]. pose proof (span_le x y) as HS.
+  set (ex := exp x - zlen (mant x) * DW) in *. set (ey := exp y - zlen (mant y) * DW) in *.
+  assert (Hspan0 : 0 <= span x y).
+  { unfold span. destruct (WFfin_len x Hx) as [Hlx HLx]. lia. }
+  assert (E : (let '(m, ex0) :=
+             if ex <? ey then (dec_add (mant x) (dec_shl (mant y) (ey - ex)), ex)
+             else if ey <? ex then (dec_add (dec_shl (mant x) (ex - ey)) (mant y), ey)
+             else (dec_add (mant x) (mant y), ex) in
+           match dnorm m with
+           | None => None
+           | Some (m', s) => setExpAndRound (with_mant z m') (ex0 + zlen m' * DW - s) 0
+           end) =
+          match dnorm (of_Z (alX x y + alY x y)) with
+          | None => None
+          | Some (m', s) => setExpAndRound (with_mant z m')
+              (Z.min (exp x - mdigits (mant x)) (exp y - mdigits (mant y)) + zlen m' * DW - s) 0
+          end).
+  { unfold dec_add. destruct (ex <? ey); [|destruct (ey <? ex)]; injection HA as E1 E2 E3; rewrite E1, E2, E3; reflexivity. }
+  rewrite E.
+  apply (norm_round z (alX x y + alY x y) _ (mag x + mag y) (span x y + 1)); try lia.
+  - split; [lia|]. rewrite Z.pow_add_r by lia. lia.
+  - rewrite (mag_alX x y), (mag_alY x y). symmetry. apply scaled_add.
+Qed.
+
+Lemma usub_correct z x y : WFfin x -> WFfin y -> 1 <= prec z <= MaxPrec ->
+  add_span x y + 40 < 4294967296 - 18 -> (mag y < mag x)%Q ->
+  exists z', usub z x y = Some z' /\ RoundPost z (mag x - mag y) z'.
+Proof.
+  intros Hx Hy Hp Hsp Hlt. unfold usub.
+  pose proof (align_cases x y Hx Hy) as HA. cbn zeta in HA.
+  pose proof (alX_pos x y Hx) as PX. pose proof (alY_pos x y Hy) as PY.
+  pose proof (al_bounds x y Hx Hy) as [BX BY]. pose proof (span_le x y) as HS.
+  assert (Hgt : alY x y < alX x y).
+  { rewrite (mag_alX x y), (mag_alY x y) in Hlt. now apply scaled_lt_same in Hlt. }
+  set (ex := exp x - zlen (mant x) * DW) in *. set (ey := exp y - zlen (mant y) * DW) in *.
+  assert (Hspan0 : 0 <= span x y).
+  { unfold span. destruct (WFfin_len x Hx) as [Hlx HLx]. lia. }
+  set (b := Z.min (exp x - mdigits (mant x)) (exp y - mdigits (mant y))) in *.
+  assert (E : (if ex <? ey then (dec_sub_chk (mant x) (dec_shl (mant y) (ey - ex)), ex)
+               else if ey <? ex then (dec_sub_chk (dec_shl (mant x) (ex - ey)) (mant y), ey)
+               else (dec_sub_chk (mant x) (mant y), ex)) =
+              (Some (of_Z (alX x y - alY x y)), b)).
+  { unfold dec_sub_chk, dec_sub.
+    destruct (ex <? ey); [|destruct (ey <? ex)]; injection HA as E1 E2 E3; rewrite E1, E2, E3;
+      (destruct (Z.ltb_spec (alX x y) (alY x y)); [lia|reflexivity]). }
+  rewrite E.
+  destruct (of_Z_pos_facts (alX x y - alY x y) ltac:(lia)) as (Hok & Hne & Hlast & Hval).
+  destruct (of_Z (alX x y - alY x y)) as [|w r] eqn:Eo; [congruence|]. rewrite <- Eo.
+  apply (norm_round z (alX x y - alY x y) b (mag x - mag y) (span x y)); try lia.
+  rewrite (mag_alX x y), (mag_alY x y). fold b. unfold Qminus. rewrite scaled_opp, <- scaled_add. reflexivity.
+Qed.
+
+Lemma usub_zero z x y : WFfin x -> WFfin y -> (mag x == mag y)%Q ->
+  usub z x y = Some (with_neg (with_form (with_acc (with_mant z []) Exact) Fzero) false).
+Proof.
+  intros Hx Hy Heq. unfold usub.
+  pose proof (align_cases x y Hx Hy) as HA. cbn zeta in HA.
+  assert (Hgt : alX x y = alY x y).
+  { rewrite (mag_alX x y), (mag_alY x y) in Heq. now apply scaled_eq_same in Heq. }
+  set (ex := exp x - zlen (mant x) * DW) in *. set (ey := exp y - zlen (mant y) * DW) in *.
+  assert (E : exists b, (if ex <? ey then (dec_sub_chk (mant x) (dec_shl (mant y) (ey - ex)), ex)
+               else if ey <? ex then (dec_sub_chk (dec_shl (mant x) (ex - ey)) (mant y), ey)
+               else (dec_sub_chk (mant x) (mant y), ex)) = (Some [], b)).
+  { unfold dec_sub_chk, dec_sub.
+    destruct (ex <? ey); [|destruct (ey <? ex)]; injection HA as E1 E2 E3; rewrite E1, E2; eexists;
+      (destruct (Z.ltb_spec (alX x y) (alY x y)); [lia|]);
+      rewrite Hgt, Z.sub_diag; reflexivity. }
+  destruct E as [b E]. rewrite E. reflexivity.
+Qed.
+
+(* ---- signed values and the top-level Add / Sub ---- *)
+Definition sval (d : Dec) : Q := if neg d then - mag d else mag d.
+Definition qneg (q : Q) : bool := if Qlt_le_dec q 0 then true else false.
+
+Lemma result_spec_ext p md ng v v' z : (v == v')%Q -> result_spec p md ng v z -> result_spec p md ng v' z.
+Proof.
+  intros Hv [Hn H]. split; [exact Hn|].
+  destruct (Qlt_le_dec v (scaled 1 (MinExp - 1))) as [A|A], (Qlt_le_dec v' (scaled 1 (MinExp - 1))) as [A'|A'];
+    try (exfalso; rewrite Hv in A; lra).
+  - exact H.
+  - destruct H as (r & HR & Hr). exists r. split.
+    + unfold Rounds in *. eapply RoundsDir_ext; [exact Hv|reflexivity|exact HR].
+    + destruct (Qlt_le_dec r (scaled 1 MaxExp)); [|exact Hr].
+      destruct Hr as (Hf & Hm & Ha). split; [exact Hf|]. split; [exact Hm|].
+      rewrite Ha. apply acc_of_ext; [reflexivity|exact Hv].
+Qed.
+
+Lemma fix_zero_sign_id p md ng v z : result_spec p md ng v z -> fix_zero_sign z = z.
+Proof.
+  intros [_ H]. unfold fix_zero_sign.
+  destruct (Qlt_le_dec v (scaled 1 (MinExp - 1))).
+  - destruct H as [Hf Ha]. rewrite Hf, Ha. destruct ng; cbn; rewrite ?andb_false_r; reflexivity.
+  - destruct H as (r & _ & Hr). destruct (Qlt_le_dec r (scaled 1 MaxExp)).
+    + destruct Hr as (Hf & _). rewrite Hf. reflexivity.
+    + destruct Hr as (Hf & _). rewrite Hf. reflexivity.
+Qed.
+
+Lemma qneg_pos q : (0 < q)%Q -> qneg q = false /\ (Qabs q == q)%Q.
+Proof.
+  intros H. unfold qneg. destruct (Qlt_le_dec q 0); [lra|]. split; [reflexivity|].
+  apply Qabs_pos. lra.
+Qed.
+Lemma qneg_neg q : (q < 0)%Q -> qneg q = true /\ (Qabs q == - q)%Q.
+Proof.
+  intros H. unfold qneg. destruct (Qlt_le_dec q 0); [|lra]. split; [reflexivity|].
+  apply Qabs_neg. lra.
+Qed.
+
+Definition AddPost (p : Z) (md : mode) (q : Q) (r : ores) : Prop :=
+  exists z', r = OkR z' /\ prec z' = p /\ dmode z' = md /\ WF z' /\
+    ((q == 0)%Q -> dform z' = Fzero /\ acc z' = Exact /\ neg z' = mode_eqb md ToNegativeInf) /\
+    (~ (q == 0)%Q -> result_spec p md (qneg q) (Qabs q) z').
+
+Lemma ucmp_sign x y : WFfin x -> WFfin y ->
+  (0 <? ucmp x y = true -> (mag y < mag x)%Q) /\
+  (0 <? ucmp x y = false -> (mag x <= mag y)%Q).
+Proof.
+  intros Hx Hy. rewrite (ucmp_spec x y Hx Hy). destruct (mag x ?= mag y)%Q eqn:E; cbn; split; intros; try discriminate.
+  - apply Qeq_alt in E. rewrite E. apply Qle_refl.
+  - apply Qlt_alt in E. apply Qlt_le_weak. exact E.
+  - apply Qgt_alt in E. exact E.
+Qed.
+
+Theorem Add_correct zx zy z x y :
+  WF x -> WF y -> dform x = Ffinite -> dform y = Ffinite -> 0 <= prec z <= MaxPrec ->
+  add_span x y + 40 < 4294967296 - 18 ->
+  AddPost (eff_prec z x y) (dmode z) (sval x + sval y) (Add zx zy z x y).
+Proof.
+  intros Wx Wy Fx Fy Pz Hsp.
+  pose proof (WF_finite x Wx Fx) as Hx. pose proof (WF_finite y Wy Fy) as Hy.
+  pose proof Hx as [_ _ _ Hpx _ _]. pose proof Hy as [_ _ _ Hpy _ _].
+  pose proof (mag_pos x Hx) as Mx. pose proof (mag_pos y Hy) as My.
+  assert (Hsp' : add_span y x + 40 < 4294967296 - 18) by (unfold add_span in *; lia).
+  unfold Add. rewrite Fx, Fy.
+  set (z0 := if prec z =? 0 then with_prec z (umax32 (prec x) (prec y)) else z).
+  set (z1 := with_neg z0 (neg x)).
+  assert (Hp1 : prec z1 = eff_prec z x y) by (unfold z1, z0, eff_prec; destruct (prec z =? 0); reflexivity).
+  assert (Hm1 : dmode z1 = dmode z) by (unfold z1, z0; destruct (prec z =? 0); reflexivity).
+  assert (Hpe : 1 <= eff_prec z x y <= MaxPrec).
+  { unfold eff_prec. rewrite umax32_spec. destruct (Z.eqb_spec (prec z) 0); lia. }
+  unfold sval.
+  destruct (Bool.eqb (neg x) (neg y)) eqn:Esign.
+  - (* same signs: magnitudes add *)
+    apply eqb_prop in Esign.
+    destruct (uadd_correct z1 x y Hx Hy ltac:(rewrite Hp1; exact Hpe) Hsp) as (z' & E & HS & Hp & Hm & W).
+    rewrite E. rewrite (fix_zero_sign_id _ _ _ _ _ HS).
+    exists z'. split; [reflexivity|]. split; [now rewrite Hp|]. split; [now rewrite Hm|]. split; [exact W|].
+    rewrite <- Esign. assert (Hpos : (0 < mag x + mag y)%Q) by lra.
+    rewrite Hp1, Hm1 in HS. cbn [z1 neg with_neg] in HS.
+    destruct (neg x) eqn:Nx.
+    + split; [intros C; exfalso; lra|]. intros _.
+      destruct (qneg_neg (- mag x + - mag y) ltac:(lra)) as [-> Ha].
+      apply (result_spec_ext _ _ _ (mag x + mag y)); [rewrite Ha; ring|exact HS].
+    + split; [intros C; exfalso; lra|]. intros _.
+      destruct (qneg_pos (mag x + mag y) Hpos) as [-> Ha].
+      apply (result_spec_ext _ _ _ (mag x + mag y)); [now rewrite Ha|exact HS].
+  - (* opposite signs: magnitudes subtract *)
+    apply eqb_false_iff in Esign.
+    destruct (ucmp_sign x y Hx Hy) as [Hgt Hle].
+    destruct (0 <? ucmp x y) eqn:Ec.
+    + specialize (Hgt eq_refl).
+      destruct (usub_correct z1 x y Hx Hy ltac:(rewrite Hp1; exact Hpe) Hsp Hgt) as (z' & E & HS & Hp & Hm & W).
+      rewrite E. rewrite (fix_zero_sign_id _ _ _ _ _ HS).
+      exists z'. split; [reflexivity|]. split; [now rewrite Hp|]. split; [now rewrite Hm|]. split; [exact W|].
+      rewrite Hp1, Hm1 in HS. cbn [z1 neg with_neg] in HS.
+      destruct (neg x) eqn:Nx, (neg y) eqn:Ny; try congruence.
+      * split; [intros C; exfalso; lra|]. intros _.
+        destruct (qneg_neg (- mag x + mag y) ltac:(lra)) as [-> Ha].
+        apply (result_spec_ext _ _ _ (mag x - mag y)); [rewrite Ha; ring|exact HS].
+      * split; [intros C; exfalso; lra|]. intros _.
+        destruct (qneg_pos (mag x + - mag y) ltac:(lra)) as [-> Ha].
+        apply (result_spec_ext _ _ _ (mag x - mag y)); [rewrite Ha; ring|exact HS].
+    + specialize (Hle eq_refl). apply Qle_lt_or_eq in Hle as [Hlt|Heq].
+      * set (z2 := with_neg z1 (negb (neg z1))).
+        destruct (usub_correct z2 y x Hy Hx ltac:(change (prec z2) with (prec z1); rewrite Hp1; exact Hpe) Hsp' Hlt)
+          as (z' & E & HS & Hp & Hm & W).
+        rewrite E. rewrite (fix_zero_sign_id _ _ _ _ _ HS).
+        change (prec z2) with (prec z1) in *. change (dmode z2) with (dmode z1) in *.
+        exists z'. split; [reflexivity|]. split; [now rewrite Hp|]. split; [now rewrite Hm|]. split; [exact W|].
+        rewrite Hp1, Hm1 in HS. cbn [z2 z1 neg with_neg] in HS.
+        destruct (neg x) eqn:Nx, (neg y) eqn:Ny; try congruence; cbn [negb] in HS.
+        -- split; [intros C; exfalso; lra|]. intros _.
+           destruct (qneg_pos (- mag x + mag y) ltac:(lra)) as [-> Ha].
+           apply (result_spec_ext _ _ _ (mag y - mag x)); [rewrite Ha; ring|exact HS].
+        -- split; [intros C; exfalso; lra|]. intros _.
+           destruct (qneg_neg (mag x + - mag y) ltac:(lra)) as [-> Ha].
+           apply (result_spec_ext _ _ _ (mag y - mag x)); [rewrite Ha; ring|exact HS].
+      * (* exact cancellation *)
+        rewrite (usub_zero _ y x Hy Hx) by (symmetry; exact Heq).
+        eexists. split; [reflexivity|].
+        unfold fix_zero_sign. simp_with. cbn [form_eqb acc_eqb andb].
+        rewrite andb_true_r. fold (dmode z1). rewrite Hm1. fold (prec z1). rewrite Hp1.
+        destruct (mode_eqb (dmode z) ToNegativeInf) eqn:Emd; simp_with.
+        -- split; [reflexivity|]. split; [reflexivity|]. split; [apply WF_nonfinite; cbn [dform prec]; [discriminate|lia]|].
+           split; [intros _; auto|]. intros C. exfalso. apply C.
+           destruct (neg x), (neg y); try congruence; rewrite Heq; ring.
+        -- split; [reflexivity|]. split; [reflexivity|]. split; [apply WF_nonfinite; cbn [dform prec]; [discriminate|lia]|].
+           split; [intros _; auto|]. intros C. exfalso. apply C.
+           destruct (neg x), (neg y); try congruence; rewrite Heq; ring.
+Qed.
+
+(* Sub on finite operands is Add with the second operand's sign flipped *)
+Lemma Sub_finite_eq zx zy z x y : dform x = Ffinite -> dform y = Ffinite ->
+  Sub zx zy z x y = Add zx zy z x (with_neg y (negb (neg y))).
+Proof.
+  intros Fx Fy. unfold Sub, Add. cbn [dform with_neg neg prec]. rewrite Fx, Fy.
+  destruct (neg x), (neg y); reflexivity.
+Qed.
+
+Lemma mag_with_neg y b : mag (with_neg y b) = mag y.
+Proof. reflexivity. Qed.
+
+Theorem Sub_correct zx zy z x y :
+  WF x -> WF y -> dform x = Ffinite -> dform y = Ffinite -> 0 <= prec z <= MaxPrec ->
+  add_span x y + 40 < 4294967296 - 18 ->
+  AddPost (eff_prec z x y) (dmode z) (sval x - sval y) (Sub zx zy z x y).
+Proof.
+  intros Wx Wy Fx Fy Pz Hsp. rewrite Sub_finite_eq by assumption.
+  set (y' := with_neg y (negb (neg y))).
+  pose proof (Add_correct zx zy z x y' Wx (WF_with_neg y _ Wy) Fx Fy Pz Hsp) as H.
+  assert (E : (sval x + sval y' == sval x - sval y)%Q).
+  { unfold sval, y'. cbn [neg with_neg]. rewrite mag_with_neg. destruct (neg y); cbn [negb]; ring. }
+  destruct H as (z' & E1 & Hp & Hm & W & H0 & H1).
+  exists z'. split; [exact E1|]. split; [exact Hp|]. split; [exact Hm|]. split; [exact W|]. split.
+  - intros C. apply H0. rewrite E. exact C.
+  - intros C. assert (C' : ~ (sval x + sval y' == 0)%Q) by (rewrite E; exact C).
+    specialize (H1 C').
+    assert (Eq : qneg (sval x + sval y') = qneg (sval x - sval y)).
+    { unfold qneg. destruct (Qlt_le_dec (sval x + sval y') 0), (Qlt_le_dec (sval x - sval y) 0); try reflexivity; exfalso; lra. }
+    rewrite <- Eq. eapply result_spec_ext; [|exact H1]. now rewrite E.
 Qed.
